@@ -37,6 +37,18 @@ func (f *Frame) loopEval(li *loopInfo, st *State, reach string) *EvalCtx {
 			}
 		}
 	}
+	if parent == nil {
+		// the innermost loop of a caller that contains the call
+		for g := f; parent == nil && g.up != nil; g = g.up {
+			for _, cand := range g.up.loops {
+				if cand.blocks[g.upBlk] {
+					if parent == nil || len(cand.blocks) < len(parent.blocks) {
+						parent = cand
+					}
+				}
+			}
+		}
+	}
 	if parent != nil && parent.hdrState != nil {
 		ev.outer = parent.hdrState
 	}
@@ -118,10 +130,10 @@ func (f *Frame) enterLoop(li *loopInfo, cur *State, r string) (*State, string) {
 		li.objs = objs
 	}
 	// function-level frame as an automatic loop invariant
-	if f.hasFrame {
-		n0 := c.nextRef(f.entry)
+	if f.topFrame().hasFrame {
+		n0 := c.nextRef(f.topFrame().entry)
 		for _, k := range keys {
-			g := c.frameGoal(k, c.heapTerm(f.entry, k), c.heapTerm(cur, k), n0, f.fnObjs[k])
+			g := c.frameGoal(k, c.heapTerm(f.topFrame().entry, k), c.heapTerm(cur, k), n0, f.topFrame().fnObjs[k])
 			if g != "true" {
 				f.oblige("inv-init[frame:"+k+"]/"+f.loopName(li), nil, r, g)
 			}
@@ -172,8 +184,8 @@ func (f *Frame) enterLoop(li *loopInfo, cur *State, r string) (*State, string) {
 		if hasMod {
 			c.assume(rh, c.frameFormula(k, li.entryHeap[k], nh, li.entryNext, li.objs[k]))
 		}
-		if f.hasFrame {
-			c.assume(rh, c.frameFormula(k, c.heapTerm(f.entry, k), nh, c.nextRef(f.entry), f.fnObjs[k]))
+		if f.topFrame().hasFrame {
+			c.assume(rh, c.frameFormula(k, c.heapTerm(f.topFrame().entry, k), nh, c.nextRef(f.topFrame().entry), f.topFrame().fnObjs[k]))
 		}
 	}
 	// a variable that lives on the heap only because a closure reads it, and that is written exactly once (where it
@@ -344,7 +356,7 @@ func (f *Frame) closeLoop(li *loopInfo, st *State, cond string) {
 			}
 			if ok {
 				goal := lexLess(now, li.variant0)
-				if ta := f.fc.TermAssume; ta != nil {
+				if ta := f.topFrame().fc.TermAssume; ta != nil {
 					// the variants are proved under the function's termination hypothesis (termassume)
 					if a, err := ev.evalBool(ta.Expr); err == nil {
 						goal = "(=> " + a + " " + goal + ")"
@@ -369,17 +381,17 @@ func (f *Frame) closeLoop(li *loopInfo, st *State, cond string) {
 			}
 		}
 	}
-	if f.hasFrame {
+	if f.topFrame().hasFrame {
 		var keys []string
 		for k := range li.entryHeap {
 			keys = append(keys, k)
 		}
 		sort.Strings(keys)
-		n0 := c.nextRef(f.entry)
+		n0 := c.nextRef(f.topFrame().entry)
 		// one obligation per back edge: the conjunction over the heap keys the loop may change
 		var fgoals, fkeys []string
 		for _, k := range keys {
-			g := c.frameGoal(k, c.heapTerm(f.entry, k), c.heapTerm(st, k), n0, f.fnObjs[k])
+			g := c.frameGoal(k, c.heapTerm(f.topFrame().entry, k), c.heapTerm(st, k), n0, f.topFrame().fnObjs[k])
 			if g != "true" {
 				fgoals = append(fgoals, g)
 				fkeys = append(fkeys, k)
@@ -429,13 +441,14 @@ func (f *Frame) loopDecr(li *loopInfo) *Clause {
 	if li.lc != nil && li.lc.Decreases != nil {
 		return li.lc.Decreases
 	}
-	if f.fc == nil || f.fc.LoopDecr == nil || li.lc == nil {
+	tfc := f.topFrame().fc
+	if tfc == nil || tfc.LoopDecr == nil || li.lc == nil {
 		return nil
 	}
 	if ri, it := f.headerRange(li); ri != nil || it != nil {
 		return nil
 	}
-	return f.fc.LoopDecr
+	return tfc.LoopDecr
 }
 
 // loopGhosts: ghost variables a call inside the loop may change. Conservative: every declared ghost that some contract
